@@ -176,6 +176,7 @@ type Cluster struct {
 	ks       map[string]bool
 	// optional overrides for hostile control-connection answers: return nil to answer normally
 	SystemOverride func(c *Conn, table string) message.Message
+	onRegister     atomic.Value // func(*Conn)
 	// optional interceptor for every frame (after logging); return true if it handled the frame
 	Intercept      func(c *Conn, hdr *frame.Header, rawBody []byte) bool
 	HoldUnprepared int32                      // when 1, the automatic UNPREPARED answers to EXECUTE are held until ReleaseHeld()
@@ -531,6 +532,14 @@ func (c *Cluster) Emit(msg message.Message) int {
 	return n
 }
 
+// SetOnRegister installs (or, with nil, removes) a hook that runs right after a REGISTER was answered READY.
+func (c *Cluster) SetOnRegister(h func(*Conn)) { c.onRegister.Store(h) }
+
+// EmitOn sends an event frame on this connection.
+func (x *Conn) EmitOn(msg message.Message) error {
+	return x.sendMsg(-1, msg, Outcome{Name: "EVENT"}, "event")
+}
+
 // EstablishedControlConns returns the open registered connections whose initial system queries were answered.
 func (c *Cluster) EstablishedControlConns() []*Conn {
 	var out []*Conn
@@ -823,6 +832,9 @@ func (x *Conn) handle(hdr *frame.Header, raw []byte) {
 		x.registered = true
 		x.smu.Unlock()
 		x.sendMsg(hdr.StreamId, &message.Ready{}, Outcome{Name: "Ready"}, "reply")
+		if h, ok := c.onRegister.Load().(func(*Conn)); ok && h != nil {
+			h(x) // right behind the READY (a schema change that happens while a control connection registers)
+		}
 	case *message.Query:
 		lq := strings.ToLower(strings.TrimSpace(m.Query))
 		if t := isSystemSelect(lq); t != "" {
